@@ -19,16 +19,17 @@ Definition date_ltb (a b : date) : bool :=
   let '(y1, m1, d1) := a in let '(y2, m2, d2) := b in
   ((y1 <? y2) || ((y1 =? y2) && ((m1 <? m2) || ((m1 =? m2) && (d1 <? d2)))))%N.
 
-(* header field names are case-insensitive (RFC 2822); the value test is
+(* header field names are case-insensitive and white space before the colon
+   is not part of the name (RFC 2822); the value test is
    "contains the specified string ... If the string to search is zero-length,
    this matches all messages that have a header line with the specified
    field-name regardless of the contents" *)
 Definition header_has (name : bytes) (value : str) (m : msg) : bool :=
-  existsb (fun h => ci_eqb (fst h) name && contains_ci value (snd h)) (m_headers m).
+  existsb (fun h => ci_eqb (strip_ws (fst h)) name && contains_ci value (snd h)) (m_headers m).
 
 (* the envelope's subject is that of the first Subject: line *)
 Definition first_header (name : bytes) (m : msg) : option str :=
-  match filter (fun h => ci_eqb (fst h) name) (m_headers m) with
+  match filter (fun h => ci_eqb (strip_ws (fst h)) name) (m_headers m) with
   | [] => None
   | h :: _ => Some (snd h)
   end.
